@@ -407,11 +407,18 @@ func (w *ckWorld) doSetKey(op, key int, pfx string) string {
 func (w *ckWorld) doOptOut(op int) string {
 	ctx := w.C.Ctx
 	cur := w.CurKey(ctx, op)
-	active := w.InValSet(ctx, cur)
+	// scheduled when the current key, or the key it replaced during this epoch, is validating
+	active := w.InValSet(ctx, cur) || w.InValSet(ctx, w.PrevKey(ctx, op))
 	slot := w.DogfoodEpoch(ctx) + int64(w.C.App.StakingKeeper.GetDogfoodParams(ctx).EpochsUntilUnbonded)
 	out := errClass(w.OptOut(op))
 	if out == "ok" && active {
 		w.tracks = append(w.tracks, ckTrack{kind: "optout", id: op, owner: op, key: cur, slot: slot})
+	}
+	if out == "ok" && !active {
+		w.env.Eval("C07.guards")
+		if w.Removing(w.C.Ctx, op) || w.CurKey(w.C.Ctx, op) >= 0 {
+			w.viol("C07.guards", "inactive-optout-not-completed", fmt.Sprintf("operator %d opted out with no validating key but is still removing=%v / has key %d", op, w.Removing(w.C.Ctx, op), w.CurKey(w.C.Ctx, op)), w.hist)
+		}
 	}
 	w.emit(fmt.Sprintf("ck.optout %d", op), out)
 	return out
@@ -448,6 +455,16 @@ func (w *ckWorld) doUndelegate(op int, amt int64, pfx string) string {
 		hc := c.App.DelegationKeeper.GetUndelegationHoldCount(c.Ctx, key)
 		me, hasM := c.App.StakingKeeper.GetUndelegationMaturityEpoch(c.Ctx, key)
 		switch {
+		case removing && fin < 0:
+			// the finish epoch has been consumed: only legitimate in the block that closes it
+			// (operator pending); the unbonding period is over, nothing is held
+			po, _, _ := w.pending(ctx)
+			if !has(po, op) {
+				w.viol("C16.hold", pfx+"removing-without-finish-epoch", fmt.Sprintf("operator %d is removing its key, has no finish epoch and is not pending", op), w.hist)
+			}
+			if hc != 0 || hasM {
+				w.viol("C16.hold", pfx+"held-after-optout-finished", fmt.Sprintf("undelegation from operator %d in the block finishing its opt-out is held (hold=%d)", op, hc), w.hist)
+			}
 		case removing:
 			if hc != 1 || !hasM || me != fin {
 				w.viol("C16.hold", pfx+"optout-maturity", fmt.Sprintf("undelegation from opting-out operator %d: hold=%d maturity=%d(%v), opt-out finishes at %d", op, hc, me, hasM, fin), w.hist)
@@ -598,14 +615,27 @@ func domConsKeys(env *Env) error {
 				env.Outcome("optin=" + w.doOptIn(op, key, ""))
 			case 1:
 				env.Outcome("setkey=" + w.doSetKey(op, key, ""))
-			case 2: // opt out — the random stream stays away from F-07a's trigger (current key not yet active)
+			case 2: // opt out (also before the key is active, also right after a key replacement)
 				if w.Reg[op] {
 					if in, _ := w.OptState(c.Ctx, op); in && !w.InValSet(c.Ctx, w.CurKey(c.Ctx, op)) {
-						env.Outcome("optout=skipped-f07a-trigger")
-						continue
+						env.Outcome("optout:key-not-active") // F-07a's trigger, part of the random stream since the fix
 					}
 				}
-				env.Outcome("optout=" + w.doOptOut(op))
+				oo := w.doOptOut(op)
+				env.Outcome("optout=" + oo)
+				// every other scheduled opt-out is followed by a LOWER EpochsUntilUnbonded and an
+				// undelegation from that operator: it must still mature with the opt-out (finish
+				// epoch fixed at opt-out time), not at current epoch + the new, smaller N
+				if curN := c.App.StakingKeeper.GetDogfoodParams(c.Ctx).EpochsUntilUnbonded; oo == "ok" && w.Removing(c.Ctx, op) && curN > 1 && rng.Bool() {
+					nn := uint32(rng.Range(1, int(curN)-1))
+					w.SetDogfoodParams(func(p *dogfoodtypes.Params) { p.EpochsUntilUnbonded = nn })
+					w.emit(fmt.Sprintf("ck.param %d", nn), "ok")
+					if rng.Bool() && !w.doBlock(time.Duration(1+rng.Intn(5))*time.Second, "") {
+						st = steps
+						break
+					}
+					env.Outcome("optout-then-lower-N-then-undelegate=" + w.doUndelegate(op, 1, ""))
+				}
 			case 3: // jail / unjail by consensus address (any key: current, replaced, unknown)
 				b := 0
 				if rng.Bool() {
@@ -623,8 +653,7 @@ func domConsKeys(env *Env) error {
 					continue
 				}
 				if w.Removing(c.Ctx, op) && c.App.StakingKeeper.GetOperatorOptOutFinishEpoch(c.Ctx, w.Ops[op].Acc) < 0 {
-					env.Outcome("undelegate=skipped-f16a-trigger") // block closing the opt-out's epoch: finish epoch already deleted
-					continue
+					env.Outcome("undelegate:in-optout-closing-block") // F-16a's trigger, part of the random stream since the fix
 				}
 				env.Outcome("undelegate=" + w.doUndelegate(op, []int64{1, 1, 1_000_000, 3_000_000}[rng.Intn(4)], ""))
 			case 5:
@@ -717,6 +746,38 @@ func scenarioF07a(env *Env) {
 	}
 	w.doOptIn(x, free+1, pfx)
 	w.monitors(c.Ctx, "tx", pfx)
+	// second shape: a validating operator replaces its key and opts out in the same epoch. the
+	// old key validates until the epoch ends and must stay resolvable (slashable) for the whole
+	// unbonding period, undelegations must be held until the opt-out finishes.
+	g := -1
+	for op := range w.Ops {
+		if w.InValSet(c.Ctx, w.CurKey(c.Ctx, op)) && !w.Removing(c.Ctx, op) {
+			g = op
+			break
+		}
+	}
+	fresh := -1
+	for k := range w.Keys {
+		if w.RevOp(c.Ctx, k) < 0 {
+			fresh = k
+		}
+	}
+	if g >= 0 && fresh >= 0 {
+		w.doSetKey(g, fresh, pfx)
+		w.doOptOut(g)
+		w.monitors(c.Ctx, "tx", pfx)
+		w.doUndelegate(g, 1, pfx)
+		for i := 0; i < 4; i++ {
+			if !w.doBlock(w.EpochDur+time.Second, pfx) {
+				break
+			}
+			w.monitors(c.Ctx, "tx", pfx)
+		}
+		env.Eval("C07.guards")
+		if w.Removing(c.Ctx, g) {
+			w.viol("C07.guards", pfx+"stuck-removing", fmt.Sprintf("operator %d (key replaced and opted out in one epoch) is still removing after the unbonding period", g), w.hist)
+		}
+	}
 	env.Report.Histories++
 	env.Outcome("scenario-f07a")
 }
